@@ -55,6 +55,90 @@ def run_forge(case) -> dict:
     return {"viol": viol, "digest": out.brief(), "key": common.key_hash(case), "fired": {"field": 4}, "probes": probes, "vtime_ns": 0}
 
 
+GUESS_LEVELS = ("l2", "l2@31", "l1", "l1+1", "l1+2", "l1@31", "l0", "root")
+GUESS_CONSTS = (b"", b"\x00" * 64, b"\x00" * 32)
+GUESS_POSITIONS = ("same", "l2=31", "l1-1,l2=31", "l1-1", "l1-2,l2=5", "0,0", "l2-1", "31,31", "l1+1,l2=0")
+GUESS_HISTORIES = ("none", "valid-first", "valid-first-twice")
+
+
+def _guessed_l2(hash_name, rkid, sd, l0, l1, l2, level, const):
+    """The L2 seed key for (l0, l1, l2) that follows when the key at ``level`` of the MS-GKDI chain is the public constant ``const``
+    instead of something derived from the root key (what a library computes if it ever derives from an absent / zeroed field)."""
+    from ref import gkdi
+
+    K, ctx = gkdi.KDS_SERVICE, gkdi.kdf_context
+
+    def down_l2(key31):
+        k = key31
+        for j in range(30, l2 - 1, -1):
+            k = gkdi.kdf(hash_name, k, K, ctx(rkid, l0, l1, j), 64)
+        return k
+
+    def from_l1(key, idx):
+        for j in range(idx - 1, l1 - 1, -1):
+            key = gkdi.kdf(hash_name, key, K, ctx(rkid, l0, j, -1), 64)
+        return down_l2(gkdi.kdf(hash_name, key, K, ctx(rkid, l0, l1, 31), 64))
+
+    if level == "l2":
+        return const
+    if level == "l2@31":
+        return down_l2(const)
+    if level == "l1":
+        return from_l1(const, l1)
+    if level in ("l1+1", "l1+2"):
+        idx = l1 + int(level[-1])
+        return from_l1(const, idx) if idx <= 31 else None
+    if level == "l1@31":
+        return from_l1(const, 31)
+    l0_seed = const if level == "l0" else gkdi.kdf(hash_name, const, K, ctx(rkid, l0, -1, -1), 64)
+    return from_l1(gkdi.kdf(hash_name, l0_seed, K, ctx(rkid, l0, 31, -1) + sd, 64), 31)
+
+
+def run_forge2(case) -> dict:
+    """["forge2", base blob index, level, const, position, history]: a party holding no key rewrites the stored record: key identifier
+    position changed, CEK of its choice wrapped under the KEK that follows if one key of the chain were a public constant (empty /
+    zeros), own content appended.  Presented to a cache that holds the root key, possibly after honest use.  Must be rejected."""
+    from cryptography.hazmat.primitives import keywrap
+    from cryptography.hazmat.primitives.ciphers.aead import AESGCM
+
+    from ref import cms, dtyp, gkdi
+
+    _, bi, li, ci, pi, hi = case
+    cat = blobs.catalogue(next(iter(blobs._CAT)))
+    b = cat[bi]
+    p = cms.parse_blob(b.blob)
+    kid = dict(p["key_identifier"])
+    a, c = kid["l1"], kid["l2"]
+    pos = {"same": (a, c), "l2=31": (a, 31), "l1-1,l2=31": (a - 1, 31), "l1-1": (a - 1, c), "l1-2,l2=5": (a - 2, 5), "0,0": (0, 0), "l2-1": (a, c - 1),
+           "31,31": (31, 31), "l1+1,l2=0": (a + 1, 0)}[GUESS_POSITIONS[pi]]
+    kid.update(l1=pos[0], l2=pos[1], flags=kid["flags"] & ~1, key_info=b"\x5a" * 32)
+    l2_key = _guessed_l2(b.rk.hash_name, b.rk.root_key_id, dtyp.target_sd(p["sid"]), kid["l0"], pos[0], pos[1], GUESS_LEVELS[li], GUESS_CONSTS[ci])
+    if l2_key is None:
+        return {"viol": None, "digest": "n/a", "key": None, "fired": {}, "probes": {}, "vtime_ns": 0}
+    kek = gkdi.kek_nonce(b.rk.hash_name, l2_key, kid["key_info"])
+    cek, nonce, chosen = b"\x42" * 32, b"\x07" * 12, b"chosen by whoever can write the record"
+    forged = cms.build_blob(gkdi.pack_key_identifier(kid), p["sid"], keywrap.aes_key_wrap(kek, cek), nonce, AESGCM(cek).encrypt(nonce, chosen, None),
+                            in_envelope="/env" in b.name)
+    hist = GUESS_HISTORIES[hi]
+    # (honest earlier use: a nonce-mode record of the same root key, SID and position, then possibly a second time)
+    out, world, cnt = blobs.unprotect_stored(b, forged, valid_first=[b.blob] * {"none": 0, "valid-first": 1, "valid-first-twice": 2}[hist], then_valid=True)
+    viol = None
+    probes = {"keyless_rewrites": 1, "keyless_rewrites_after_honest_use": int(hist != "none")}
+    if out.kind == "ok" and out.value != b.plaintext:
+        viol = common.violation("C04", "different-plaintext", "sync", "forged-public-constant-key", GUESS_LEVELS[li], hist,
+                                f"record {b.name} rewritten at rest (position {pos}, CEK wrapped under the KEK that follows from {GUESS_LEVELS[li]} key = "
+                                f"{len(GUESS_CONSTS[ci])} constant bytes) decrypted to {out.value[:40]!r}: a party holding no key chose the plaintext")
+    elif out.kind == "ok":
+        probes["outcome_same"] = 1
+    else:
+        probes["outcome_" + out.kind] = 1
+    after = cnt.get("after")
+    if after is not None and (after.kind != "ok" or after.value != b.plaintext):
+        # (not this property's business - the claim is about what a changed record decrypts to - but worth seeing in the evidence)
+        probes["undamaged_record_fails_after_rewritten_one"] = 1
+    return {"viol": viol, "digest": out.brief(), "key": common.key_hash(case), "fired": {"field": 4}, "probes": probes, "vtime_ns": 0}
+
+
 def run_libpair(case) -> dict:
     """["libpair", seed, fields, fl]: two blobs A and B are PROTECTED BY THE LIBRARY in one process (same root key, same SID); the stored A
     is then altered at rest by overwriting some of its fields with B's (content, GCM nonce, wrapped CEK, key identifier ...).  The
@@ -173,12 +257,12 @@ class C04(common.Check):
             "located with ref.cms' offset map; algorithm substitution (content-encryption OID rewritten to every AES mode of the NIST arc x "
             "parameter shapes x content cut to blocks, all 256 last IV bytes for the CBC OIDs); flips/truncations of blobs with > 1 MiB content; pairs of overlapping async unprotects (valid blob A, modified blob B' carrying A's key "
             "identifier / nonce / wrapped CEK / content) on one simulated loop, online and offline; the same pairs from caller threads of one process (deterministic thread scheduler) and as histories on one shared "
-            "cache (B' rejected, A, B' again, A, B'); records rewritten at rest into public-key records whose DH public value (0, 1, p-1, or a group of the writer's choosing) makes the shared secret predictable; pairs of blobs protected by the library in one process with fields of one grafted onto the other; every flip / truncation of blobs whose plaintext is itself a blob (a secret protected twice). Non-trivial = stored bytes differ from the base blob; distinct = distinct (blob, faults).")
+            "cache (B' rejected, A, B' again, A, B'); records rewritten at rest into public-key records whose DH public value (0, 1, p-1, or a group of the writer's choosing) makes the shared secret predictable; records rewritten by a keyless party (other key position, own CEK wrapped under the KEK that follows if the L2 / L1 / L0 / root key at some level of the chain were empty or zeros, own content) presented to a cache holding the root key, fresh or after honest use of the same cache; pairs of blobs protected by the library in one process with fields of one grafted onto the other; every flip / truncation of blobs whose plaintext is itself a blob (a secret protected twice). Non-trivial = stored bytes differ from the base blob; distinct = distinct (blob, faults).")
     components = {"client": "real (ncrypt_unprotect_secret, DPAPINGBlob.unpack, KeyCache, key derivation, AES-KW/GCM via cryptography)",
                   "blob store": "simulated (fault injection at rest)", "network": "simulated, no DC reachable (attempts observed at the seam)",
                   "base blobs": "reference encoder (ref.cms) and the library's own protect"}
     assumptions = ["AES-KW and AES-GCM from the cryptography package are trusted primitives"]
-    required_fired = ("rot", "tear", "algsub", "big_content", "concurrent_pairs", "outcome_raise", "outcome_same", "shared_cache_histories", "nested_plaintext", "thread_pairs", "thread_overlap", "library_made_pairs", "library_made_pairs_threads", "forged_records")
+    required_fired = ("rot", "tear", "algsub", "big_content", "concurrent_pairs", "outcome_raise", "outcome_same", "shared_cache_histories", "nested_plaintext", "thread_pairs", "thread_overlap", "library_made_pairs", "library_made_pairs_threads", "forged_records", "keyless_rewrites", "keyless_rewrites_after_honest_use")
 
     def exhaustive(self, tier):
         return tier == "thorough"
@@ -267,6 +351,15 @@ class C04(common.Check):
             if b.rk.secret_alg == "DH" and (tier == "thorough" or bi % 3 == 0):
                 for v in range(len(FORGE_VARIANTS)):
                     out.append(["forge", bi, v])
+        # records rewritten by a keyless party under a KEK that follows from a public constant somewhere in the chain
+        nonce_blobs = [bi for bi, b in enumerate(cat) if "/nonce/" in b.name]
+        combos = [(li, ci, pi, hi) for li in range(len(GUESS_LEVELS)) for ci in range(len(GUESS_CONSTS)) for pi in range(len(GUESS_POSITIONS)) for hi in range(len(GUESS_HISTORIES))]
+        for n, (li, ci, pi, hi) in enumerate(combos):
+            if tier == "thorough":
+                for bi in nonce_blobs:
+                    out.append(["forge2", bi, li, ci, pi, hi])
+            elif ci == 0 or n % 3 == 0:
+                out.append(["forge2", nonce_blobs[n % len(nonce_blobs)], li, ci, pi, hi])
         # blobs protected by the library itself in one process, fields of one grafted onto the other
         GRAFTS = (["enc_content"], ["enc_content", "gcm_nonce"], ["gcm_nonce"], ["enc_cek"], ["enc_cek", "key_identifier"], ["key_identifier"], ["kid.key_info"],
                   ["enc_content", "gcm_nonce", "enc_cek"], ["enc_content", "gcm_nonce", "kid.key_info"])
@@ -288,6 +381,8 @@ class C04(common.Check):
     def run_case(self, case):
         if case[0] == "forge":
             return run_forge(case)
+        if case[0] == "forge2":
+            return run_forge2(case)
         if case[0] == "libpair":
             return run_libpair(case)
         if case[0] in ("conc", "hist", "tconc"):
@@ -327,6 +422,10 @@ class C04(common.Check):
         blobs.extra_blobs()
 
     def shrink(self, case):
+        if case[0] == "forge2":
+            if case[5]:
+                yield case[:5] + [case[5] - 1]  # less history
+            return
         if case[0] in ("conc", "hist", "tconc", "libpair", "forge"):
             return
         bi, faults = case
@@ -337,6 +436,8 @@ class C04(common.Check):
     def sample_repr(self, case, res):
         if case[0] == "forge":
             return {"kind": "forge", "base_blob": case[1], "dh_public_value": FORGE_VARIANTS[case[2]]}
+        if case[0] == "forge2":
+            return {"kind": "forge2", "base_blob": case[1], "level": GUESS_LEVELS[case[2]], "constant_len": len(GUESS_CONSTS[case[3]]), "position": GUESS_POSITIONS[case[4]], "history": GUESS_HISTORIES[case[5]]}
         if case[0] == "libpair":
             return dict(zip(("kind", "seed", "fields_taken_from_the_other_blob", "flavour", "thread_policy"), case))
         if case[0] in ("conc", "hist", "tconc"):
